@@ -350,6 +350,11 @@ func genLivingCase(prop, tier string, r *rand.Rand) *Case {
 		v.Prior = 1
 		po := genPubOptions(r, []string{"show"})
 		v.PriorOptions = &po
+	case 2:
+		v.SameOptions = true
+		if r.IntN(2) == 0 {
+			v.Prior = 0 // (an empty document instead of one with a dead person)
+		}
 	}
 	cfg.Variants = []PubVariant{v}
 	c.Publish = cfg
@@ -412,7 +417,26 @@ func runLivingCase(t *testing.T, c *Case, cr *CaseResult) *CaseResult {
 	// history
 	var run *pubRun
 	var ok bool
-	if v.Prior == 0 && v.SameObject && v.PriorOptions != nil {
+	if v.SameOptions {
+		// one options object for an earlier publish of a document without
+		// living people (an empty one) and for the publish under test
+		doc, err := decode(c.Docs[0])
+		if err != nil {
+			return cr
+		}
+		lib := cfg.Options.lib()
+		if pd, err := decode("0 HEAD\n0 @I1@ INDI\n1 NAME Long /Dead/\n1 DEAT\n2 DATE 1 Jan 1800\n0 TRLR\n"); err == nil && v.Prior < 0 {
+			sub := &CaseResult{Prop: prop, Probes: map[string]int64{}, Counters: map[string]int64{}}
+			runPublishWith(t, sub, prop, pd, cfg.Options, lib, false, 1, simrt.Config{Mode: "default", MapOrder: "identity"}, c.Today, nil)
+		} else if pd, err := decode("0 HEAD\n0 TRLR\n"); err == nil {
+			sub := &CaseResult{Prop: prop, Probes: map[string]int64{}, Counters: map[string]int64{}}
+			runPublishWith(t, sub, prop, pd, cfg.Options, lib, false, 1, simrt.Config{Mode: "default", MapOrder: "identity"}, c.Today, nil)
+		}
+		cr.Runs++
+		cr.count("history.prior_publish", 1)
+		cr.count("history.same_options_object", 1)
+		run, ok = runPublishWith(t, cr, prop, doc, cfg.Options, lib, false, cfg.Jobs, c.Sim, c.Today, nil)
+	} else if v.Prior == 0 && v.SameObject && v.PriorOptions != nil {
 		// the same *gedcom.Document value is published with "show" first
 		doc, err := decode(c.Docs[0])
 		if err != nil {
